@@ -316,6 +316,9 @@ def identity_cases(draw):
 # ------------------------------------------------------------------------------------------------
 # clause 4: interleavings, schedule owned by the harness
 # ------------------------------------------------------------------------------------------------
+_SWEEPS = {"warm": 0, "cold": 0}  # systematic shared-state sweeps done by this worker process
+
+
 def check_interleaving(case, ctx):
     cfg, jobs, pre = case["cfg"], case["jobs"], case["preemptions"]
     expected = []
@@ -347,7 +350,9 @@ def check_interleaving(case, ctx):
                             f"{cfg['kind']} job {i} {jobs[i]['op']}({jobs[i].get('call', {})}) under schedule {s.trace} (of {total} steps): {r!r} != sequential {x!r}"[:1200])
     if snapshot(shared) != before:
         raise Violation("attr-changed-under-interleaving", f"{cfg['kind']} model attributes changed")
-    if s.touches > 0 and len(jobs) > 1:
+    _SWEEPS["warm"] += 1 if s.touches > 0 and len(jobs) > 1 else 0
+    if s.touches > 0 and len(jobs) > 1 and _SWEEPS["warm"] <= 25:
+        # (at most 25 sweeps per worker process: on a tree WITH legitimate shared state every case would pay for one)
         # the jobs executed code that touches process-wide mutable state: explore it systematically - ONE preemption at each of its first steps,
         # to each other thread (a CHESS-style bound-1 sweep; costs nothing on a tree without such state)
         for k in range(min(s.touches, 12)):
@@ -577,7 +582,8 @@ def cold_custom(ctx, seed, tier, shard, nshards, n):
             v.case = case
             raise
         ctx.called(2 * len(case["jobs"]))
-        if out.get("touches", 0) > 0 and len(case["jobs"]) > 1:
+        _SWEEPS["cold"] += 1 if out.get("touches", 0) > 0 and len(case["jobs"]) > 1 else 0
+        if out.get("touches", 0) > 0 and len(case["jobs"]) > 1 and _SWEEPS["cold"] <= 6:
             # first-use code that touches process-wide state was executed: ONE preemption at each of its first steps, each in its own fresh child
             for kk in range(min(out["touches"], 10)):
                 case2 = dict(case, preemptions=[], on_write=[], on_touch=[None] * kk + [1 + kk % (len(case["jobs"]) - 1)])
